@@ -183,3 +183,17 @@ CHECKS['C13'] = dict(level='proof',
         'are not exactly unit, the spin-count variant (integer multiples of the rounded pi), squad / intermediate, dual-quaternion lerp.',
    technique='abstract interpretation of instantiated LLVM IR into polynomial normal forms with trigonometric atoms; decision-tree exploration; reduction modulo unit-norm and Pythagorean relations; rational witnesses on the unit spheres for refutations')
 NOT_APPLICABLE.pop('C13', None)
+
+CHECKS['C18'] = dict(level='other',
+   text='bitfieldInterleave (2, 3, 4 operands; 8/16/32-bit; signed, unsigned and vec2 forms) places bit i of operand k at result bit n*i + k and nothing else, bit for bit, and bitfieldDeinterleave(bitfieldInterleave(x, y)) is the '
+        'identity selection; mask(n), bitfieldFillOne/FillZero(v, first, count), bitfieldRotateLeft/Right(v, s) are the documented bit patterns / permutations of v for every constant parameter in range (all 8/16-bit '
+        'parameters, boundary sets for 32/64-bit; all widths and signednesses in the thorough tier); isPowerOfTwo(x) is popcount(|x|) < 2; ceil/nextPowerOfTwo are a complete smear ladder (every bit of the value before the '
+        'final + 1 is the OR of all higher-or-equal bits of |x| - 1) times GLM\'s own sign(x) for signed types; floor/prev/roundPowerOfTwo return x exactly under isPowerOfTwo(x) and otherwise 1 << findMSB(x) (roundPowerOfTwo the '
+        'nearer of that and its double); isMultiple is x % m == 0; ceil/floor/round/next/prevMultiple for int, uint, float, double (sized ints in the thorough tier): on every path of the decision tree, substituting the division '
+        'relation dividend = q m + r makes the result a multiple of m whose distance to x lies in the window of the named direction for every remainder the path admits (exact multiples map to themselves).',
+   note='Holds for all inputs because each clause is a statement about the instantiated term: bit placement, OR-sets, sibling terms, or a linear form in (m, r) over the whole remainder range. A refutation of a multiple function always '
+        'exhibits small integers (x, m) at which the path conditions hold and the value of the derived normal form is not the next/previous/nearest multiple; a refutation of a bit pattern is a pure placement difference or a '
+        'constant-folded witness value. Not decided: findNSB (loop), integer log2/sqrt/pow/factorial/mod of gtc/gtx integer and gtx/bit (loops or value arithmetic), wrap-around of the multiples near the type limits, the value of findMSB itself '
+        '(C05), vector overloads (lane uniformity against these scalar forms is C01). One known finding: both rotate functions rotate in the direction opposite to their name and documentation.',
+   technique='bit-placement normal forms and OR-set abstract domain over instantiated LLVM IR; sibling term identity; decision-tree exploration with symbolic remainder analysis (linear forms over the remainder range)')
+NOT_APPLICABLE.pop('C18', None)
